@@ -182,7 +182,7 @@ struct CRes {
   panicked: bool,
 }
 
-const WATCHDOG: StdDuration = StdDuration::from_secs(4);
+const WATCHDOG: StdDuration = StdDuration::from_secs(30); // generous: only costs time when a run really hangs
 const MAX_STEPS: u64 = 20_000;
 
 /// Common tail: start the schedule, wait for rest, collect the consumer's result.
